@@ -60,8 +60,7 @@ def stack_discipline(ctx):
         if not ok_rng:
             problems.append('the number of entries popped is not 1 + last_depth - depth')
         lits = literals(b, R, pops[0][0])
-        if not any(l[0] == 'true' and l[1][0] == 'bin' and l[1][1] == 'Le' and s(l[1][2]) == s(depth) and l[1][3] == LD for l in lits) and \
-                not any(l[0] == 'true' and l[1][0] == 'bin' and l[1][1] == 'Ge' and l[1][2] == LD and s(l[1][3]) == s(depth) for l in lits):
+        if not any(op == 'Le' and s(x) == s(depth) and y == LD for op, x, y in prune.cmp_facts(lits)):
             problems.append('pops are not guarded by depth <= last_depth')
         # order: pops (reading the old last_depth) precede the update, the push is outside the pop loop and happens at most once
         hdr = [h for h in cfg.loop_headers() if isinstance(h, int) and pops[0][0] in cfg.loop_of(h)]
@@ -137,7 +136,11 @@ def run(ctx):
                 if x[0] == 'bin' and x[1].startswith('Add') and x[3][0] == 'bin' and x[3][1] == 'Shl' and x[3][2] == ('const', 1):
                     i = x[3][3]
                     lits = literals(b, R, dbb)
-                    if any(lt[0] == 'true' and is_call(lt[1], 'Index::index') and s(lt[1][2][1]) == s(i) for lt in lits):
+                    # row i of the result vector is true: result[i], or the element paired with position i by enumerate
+                    if any(lt[0] == 'true' and is_call(lt[1], 'Index::index') and lt[1][2][0] == ('param', 'result') and s(lt[1][2][1]) == s(i) for lt in lits):
+                        ok = True
+                    if i[0] == 'field' and i[2] == '0' and is_call(i[1], 'Iterator::next') and is_call(i[1][2][0], 'Iterator::enumerate') and \
+                            i[1][2][0][2][0] == ('param', 'result') and any(lt[0] == 'true' and s(lt[1]) == s(('field', i[1], '1')) for lt in lits):
                         ok = True
         if ok:
             ctx.ok('C09.R1', 'AffTree::index_from_label#bits', 'label bit i is set iff row i is satisfied', b.span)
@@ -253,10 +256,14 @@ def run(ctx):
     b = ctx.body('C09.R2', 'AffTree::evaluate')
     if b is not None:
         R = Resolver(b)
-        rets = [e for _, e in R.return_expr()]
-        ok = len(rets) == 1 and is_call(rets[0], 'Option::map') and is_call(rets[0][2][0], 'AffTree::find_terminal') and is_call(rets[0][2][0][2][1], 'Tree::get_root')
-        if ok:
-            cb, crets = prune.closure_ret(F, rets[0][2][1])
-            ok = bool(crets) and is_call(crets[0], 'AffFuncBase::apply') and crets[0][2][1] == ('upvar', 'input') and \
-                crets[0][2][0][0] == 'field' and crets[0][2][0][2] == 'aff'
+        rets = [prune.beta_option_map(F, e) for _, e in R.return_expr()]
+        # whatever the control form (`map`, `?`, `match`): the only function applied is the `aff` of the terminal found from the root for this input
+        apps = {s(x) for e in rets for x in walk(e) if is_call(x, 'AffFuncBase::apply')}
+        ok = False
+        if len(apps) == 1:
+            ap = list(apps)[0]
+            f, inp = ap[2]
+            ok = inp == ('param', 'input') and f[0] == 'field' and f[2] == 'aff' and f[1][0] == 'field' and f[1][2] == 'value' and f[1][1][0] == 'field' and f[1][1][2] == '0' \
+                and is_call(f[1][1][1], 'AffTree::find_terminal') and f[1][1][1][2][0] == ('param', 'self') and is_call(f[1][1][1][2][1], 'Tree::get_root') \
+                and f[1][1][1][2][2] == ('param', 'input')
         (ctx.ok if ok else ctx.bad)('C09.R2', 'AffTree::evaluate#apply', 'applies the reached terminal\'s function to the same input' if ok else 'evaluate does not apply the reached terminal to the input', b.span)
